@@ -30,3 +30,25 @@ package validate
 //@   props C15
 //@   results t, c, err
 //@   ensures same_type: (err == nil && v.typeOfExpr#0(env, left, caps) != nil && v.typeOfExpr#0(env, right, caps) != nil) ==> compareCedarType#0(v.typeOfExpr#0(env, left, caps), v.typeOfExpr#0(env, right, caps)) == 0
+
+// Termination of the walk over the (possibly cyclic) entity-type hierarchy:
+// every call marks its type as seen before it recurses, `seen` only grows, and
+// the number of schema entity types not yet seen bounds the recursion depth.
+// unseen(all, seen) is that number; the three facts about it are properties
+// of finite sets (assumed, listed as axioms in the evidence).
+//@ spec func unseen(all map[types.EntityType]resolved.Entity, seen map[types.EntityType]struct{}) int
+//@ spec func sub(s map[types.EntityType]struct{}, s2 map[types.EntityType]struct{}) bool = forall t types.EntityType :: { has(s2, t) } has(s, t) ==> has(s2, t)
+//@ axiom unseen_nonneg: forall all map[types.EntityType]resolved.Entity, s map[types.EntityType]struct{} :: { unseen(all, s) } unseen(all, s) >= 0
+//@ axiom unseen_add: forall all map[types.EntityType]resolved.Entity, s map[types.EntityType]struct{}, s2 map[types.EntityType]struct{}, t types.EntityType :: { unseen(all, s), unseen(all, s2), has(s2, t) } (has(all, t) && !has(s, t) && has(s2, t) && sub(s, s2)) ==> unseen(all, s2) < unseen(all, s)
+//@ func (Validator) isEntityDescendantFrom
+//@   props C16
+//@   safety
+//@   requires v.schema != nil && !isnil(seen)
+//@   modifies seen
+//@   measure unseen(v.schema.Entities, seen)
+//@   results r
+//@   ensures grows: sub(old(seen), seen)
+//@   ensures marks: has(seen, childType)
+//@   loop 1
+//@     invariant !isnil(seen) && has(seen, childType) && (len(entity.ParentTypes) > 0 ==> has(v.schema.Entities, childType))
+//@     invariant sub(old(seen), seen)
